@@ -77,6 +77,14 @@ CHECKS = {
    text="Persist.tla has one action per durable write of a block commit (state batch, index batch, five block-file tables, journal pruning), Crash at any point, Recover, Continue; TLC proves the five C11 clauses for the intended recovery and enumerates ALL reachable crash states (144 over five height classes). Every crash state is rebuilt on a copy of a really committed ledger (dropped batches, truncated table files, plus a probe of the writes the real code actually issues), the real blockfile.NewBlockFile + ledger.New + continuation run in a child process, and TLC validates Crash -> Recover -> Continue traces.",
    note="trusted: TLC, harness/cmd/crashadp; atomicity of one leveldb batch / one table append delegated to leveldb / blockfile; three known findings pinned by (height class, exact set of durable writes)",
    technique="TLA+ spec + TLC exhaustive crash-state enumeration; every model crash state replayed on the real ledger; TLC trace validation"),
+ "C15": dict(engine="Governance", design_ref="DESIGN.md §3.6, §5 C15",
+   text="Governance.tla is the proposal machine (eligible administrators fixed at creation, one ballot per distinct eligible available administrator, conclusion by repo.MakeStrategyDecision, special proposals need a super administrator's vote, finality); TLC explores all vote orders (approve / reject / garbage / repeated / outsider, electors becoming unavailable) for five strategy expressions. Real scenarios submit proposals of several kinds and priorities through the real contracts, vote with admins, outsiders, frozen and re-activated admins, withdraw, restart; TLC judges every accepted vote (C15_RefusedVotes, C15_OneVotePerAdmin) and every proposal record after every block (tallies, electorate, C15_ApprovedOnlyByRule, C15_RejectedOnlyIfUnreachable, C15_SpecialNeedsSuper, C15_Final).",
+   note="trusted: TLC, harness; effect-applied-exactly-once on the governed object is only checked through the object status in the interchain scenarios, not counted",
+   technique="TLA+ proposal machine + TLC exhaustive MC; TLC trace validation of the real governance contracts"),
+ "C17": dict(engine="Interchain", design_ref="DESIGN.md §3.6, §5 C17; spec/Surface.tla",
+   text="Surface.tla classifies the contracts' entry points (Internal: contract-to-contract only; Privileged: chain admin / governance admin only); its domain is regenerated at every run by reflection on the live registered contracts (572 methods incl. promoted ones). On a live context (accepted and finished IBTPs, an open proposal, a chain whose id differs from another only in letter case) every method is invoked directly by an outsider, by admins of other chains and by a governance admin with well-typed arguments drawn from live ids (also well-formed IBTP / BitXHub-proof bytes), with free gas so that no call fails for lack of funds; TLC checks C17_InternalOnly, C17_Privileged and, on blocks of unprivileged calls, that counters and transaction records are unchanged (C17_NoForeignDelete); failed calls must leave no state delta (C07 formulas, sibling node).",
+   note="trusted: TLC, harness, the classification table (methods outside both sets are exercised under the generic formulas only); argument vectors are sampled",
+   technique="TLA+ classification + formulas; reflected-surface real-code traces validated by TLC"),
 }
 NOT_YET = "check not built yet (work in progress; see DESIGN.md build order)"
 
